@@ -56,7 +56,9 @@ class ExternalImportFilter:
     def _is_internal_import(self, i: Import) -> bool:
         importee = i.importee()
 
-        return importee.startswith(self._root_module_name)
+        # compare whole dotted components: 'pkg.ab' is not a sub module of 'pkg.a'
+        internal_root = self._root_module_name.rstrip(".")
+        return importee == internal_root or importee.startswith(internal_root + ".")
 
     def _is_internal_or_retained_external_import(self, i: Import) -> bool:
         if self._is_internal_import(i):
